@@ -1,40 +1,59 @@
-import shim, io, urllib.parse
-# --- C17: CRLF injection through Command.to_bytes
+"""Defects in modules that need shim.py to import. Each item is independent."""
+import shim, io
+
+def item(label):
+    def deco(f):
+        try:
+            print('%-20s: %s' % (label, f()))
+        except BaseException as e:            # noqa - show whatever escapes
+            print('%-20s: raises %s: %s' % (label, type(e).__name__, e))
+    return deco
+
 from wpull.protocol.ftp.request import Command, Reply, Request as FTPRequest
-r = FTPRequest('ftp://h.example/a%0D%0ADELE%20x')
-print('C17 file_path      :', repr(r.file_path))
-print('C17 wire bytes     :', Command('RETR', r.file_path).to_bytes())
-# --- C09(4): Reply.parse assertion on bare CR
-rep = Reply()
-try:
-    rep.parse(b'220 x\r220 y\r\n'); print('C09 reply parse ok', rep.code)
-except BaseException as e: print('C09 Reply.parse    :', type(e).__name__)
-# --- C09(1): strict trailer parse
 from wpull.namevalue import NameValueRecord
-try:
-    NameValueRecord(encoding='latin-1').parse(b'garbage-without-colon\r\n\r\n')
-except BaseException as e: print('C09 trailer parse  :', type(e).__name__, e)
-# --- C09(5): msdos listing IndexError
 from wpull.protocol.ftp.ls.listing import ListingParser
-try:
-    print(list(ListingParser(text='12\n34\n').parse_input()))
-except BaseException as e: print('C09 listing        :', type(e).__name__, e)
-# --- C16: 307 replay keeps Host
 from wpull.protocol.http.request import Request, Response
 from wpull.protocol.http.redirect import RedirectTracker
 from wpull.protocol.http.web import WebSession
-orig = Request('http://a.example/x'); orig.fields['Authorization'] = 'Basic c2VjcmV0'; orig.fields['Cookie']='sid=1'
-orig.prepare_for_send()           # what Stream.write_request does before sending
-resp = Response(307, 'Temporary Redirect'); resp.fields['Location'] = 'http://b.example/y'; resp.request = orig
-ws = WebSession(orig, http_client=None, redirect_tracker=RedirectTracker(), request_factory=Request)
-ws._process_response(resp)
-nxt = ws.next_request(); nxt.prepare_for_send()
-print('C16 next hop       :', nxt.url, '->', nxt.to_bytes())
-# --- C05: payload offset from re-serialisation
-raw = b'HTTP/1.1 200 OK\nContent-Type:text/html\nX-A: 1\nX-A: 2\n\nBODY'
-resp2 = Response(); resp2.parse(raw[:raw.index(b'\n\n')+1])
-print('C05 wire header len:', raw.index(b'\n\n')+2, ' re-serialised len:', len(resp2.to_bytes()))
-# --- C07: get_http_header on a real header block
 from wpull.warc.format import WARCRecord
-rec = WARCRecord(); rec.block_file = io.BytesIO(b'HTTP/1.1 200 OK\r\nContent-Type: text/html\r\n\r\nbody')
-print('C07 get_http_header:', rec.get_http_header())
+
+@item('C17 wire bytes')
+def _():
+    r = FTPRequest('ftp://h.example/a%0D%0ADELE%20x')
+    return Command('RETR', r.file_path).to_bytes()
+
+@item('C09 Reply.parse')
+def _():
+    rep = Reply(); rep.parse(b'220 x\r220 y\r\n'); return rep.code
+
+@item('C09 listing')
+def _():
+    return list(ListingParser(text='12\n34\n').parse_input())
+
+@item('C09 strict fields')
+def _():
+    # what Stream._read_body_by_chunk does with the trailer on the pinned tree
+    NameValueRecord(encoding='latin-1').parse(b'garbage-without-colon\r\n\r\n'); return 'parsed'
+
+@item('C16 next hop')
+def _():
+    orig = Request('http://a.example/x')
+    orig.fields['Authorization'] = 'Basic c2VjcmV0'; orig.fields['Cookie'] = 'sid=1'
+    orig.prepare_for_send()           # what Stream.write_request does before sending
+    resp = Response(307, 'Temporary Redirect'); resp.fields['Location'] = 'http://b.example/y'; resp.request = orig
+    ws = WebSession(orig, http_client=None, redirect_tracker=RedirectTracker(), request_factory=Request)
+    ws._process_response(resp)
+    nxt = ws.next_request(); nxt.prepare_for_send()
+    return '%s -> %r' % (nxt.url, nxt.to_bytes())
+
+@item('C05 header length')
+def _():
+    raw = b'HTTP/1.1 200 OK\nContent-Type:text/html\nX-A: 1\nX-A: 2\n\nBODY'
+    resp = Response(); resp.parse(raw[:raw.index(b'\n\n') + 1])
+    return 'on the wire %d, len(response.to_bytes()) %d' % (raw.index(b'\n\n') + 2, len(resp.to_bytes()))
+
+@item('C07 get_http_header')
+def _():
+    rec = WARCRecord(); rec.block_file = io.BytesIO(b'HTTP/1.1 200 OK\r\nContent-Type: text/html\r\n\r\nbody')
+    h = rec.get_http_header()
+    return h and (h.status_code, h.fields.get('Content-Type'))
